@@ -7,6 +7,7 @@ cd /verif || exit 2
 export GOFLAGS=-mod=mod GOPROXY=off
 FILES="$@"; [ -z "$FILES" ] && FILES=$(ls selftest/harmless/*.diff)
 CLAIMED=$(python3 -c "import json;print(' '.join(c['property_id'] for c in json.load(open('MANIFEST.json'))['checks']))")
+[ -n "$HARMLESS_PROPS" ] && CLAIMED="$HARMLESS_PROPS"   # restrict to some properties (e.g. those whose packages the bundle touches)
 WT=/tmp/harmlesswt_$$
 EV=$(mktemp -d)
 for f in $FILES; do
